@@ -227,3 +227,214 @@ def rule_shallow_copy_shares_lists(ctx):
                       f"(replace_refs -> {sorted({x for v in shared.values() for x in v})[:2]}...), the setter appends the *new* slur/tuplet to that shared list: the original "
                       f"notes of the caller's part grow an extra entry per unfolding and the copies end up with wrong lists")
     ctx.floor(rule, "shallow copies in create_variant_part", n, 1)
+
+
+# ------------------------------------------------------------------ SET-ORDER
+# repeatability: the iteration order of a set of objects hashed by identity (no __hash__/__eq__) depends on their addresses, which
+# differ between two calls on the same argument; no reachable function may turn such a set into an ordered sequence.
+
+_ORDER_FREE_CONSUMERS = {"sorted", "min", "max", "len", "any", "all", "set", "frozenset", "sum"}
+_SET_METHODS = {"difference", "union", "intersection", "symmetric_difference", "copy"}
+_SEQ_MAKERS = {"list", "tuple", "np.array", "numpy.array", "np.asarray", "numpy.asarray", "np.fromiter", "numpy.fromiter", "iter", "next",
+               "enumerate", "zip"}
+
+
+def _self_attrs_of_class(ci) -> set:
+    out = set(ci.class_attrs) | set(ci.methods) | set(ci.setters)
+    for fs in ci.all_methods.values():
+        for m in fs:
+            for n in own_nodes(m.node):
+                if isinstance(n, ast.Attribute) and isinstance(n.ctx, ast.Store) and isinstance(n.value, ast.Name) and n.value.id == "self":
+                    out.add(n.attr)
+    return out
+
+
+def _identity_hashed(ci) -> Optional[bool]:
+    """True: instances hash by address; False: value hash / unhashable; None: unknown (external base)."""
+    for c in ci.mro or [ci]:
+        if "__hash__" in c.all_methods or "__eq__" in c.all_methods or "__hash__" in c.class_attrs:
+            return False
+        for b in c.bases:
+            if isinstance(b, str) and b not in ("object",):
+                return None
+    return True
+
+
+def _set_source(e, defs, depth=0):
+    """The element source of a set-valued expression (the iterable it was built from), or None if `e` is not recognisably a set."""
+    if depth > 4:
+        return None
+    if isinstance(e, ast.Call):
+        fn = norm(e.func)
+        if fn in ("set", "frozenset") and len(e.args) == 1 and not e.keywords:
+            return e.args[0]
+        if isinstance(e.func, ast.Attribute) and e.func.attr in _SET_METHODS:
+            return _set_source(e.func.value, defs, depth + 1)
+    if isinstance(e, ast.SetComp):
+        return e
+    if isinstance(e, ast.BinOp) and isinstance(e.op, (ast.BitOr, ast.BitAnd, ast.Sub, ast.BitXor)):
+        return _set_source(e.left, defs, depth + 1)
+    if isinstance(e, ast.Name) and len(defs.get(e.id, [])) == 1:
+        return _set_source(defs[e.id][0], defs, depth + 1)
+    return None
+
+
+def _element_classes(ctx, f: FuncInfo, src, defs):
+    """Repo classes the elements of `src` can be instances of, from how the code uses them: a constructor call as the element
+    expression, or the attributes read from a loop variable iterating the same expression in the function / the class family."""
+    prog = ctx.prog
+    # 1. a comprehension building the objects
+    if isinstance(src, (ast.ListComp, ast.SetComp, ast.GeneratorExp)) and isinstance(src.elt, ast.Call):
+        r = prog.resolve_name(f.module, norm(src.elt.func).split(".")[0]) if isinstance(src.elt.func, ast.Name) else None
+        if r is not None and r[0] == "class":
+            return [r[1]], {"<constructor>"}
+    if isinstance(src, (ast.ListComp, ast.SetComp, ast.GeneratorExp)) and isinstance(src.elt, ast.Name) and len(src.generators) == 1 \
+            and isinstance(src.generators[0].target, ast.Name) and src.generators[0].target.id == src.elt.id:
+        src = src.generators[0].iter
+    from .extra import resolve_alias
+    src = resolve_alias(src, defs)
+    key = norm(src)
+    scope = [f]
+    if key.startswith("self.") and f.cls is not None:
+        ci = prog.classes.get(f.cls.qname if hasattr(f.cls, "qname") else f.cls)
+        fam = []
+        if ci is not None:
+            seen = set()
+            todo = list(ci.mro or [ci]) + list(ci.subclasses)
+            while todo:
+                c = todo.pop()
+                if c.qname in seen:
+                    continue
+                seen.add(c.qname)
+                fam.append(c)
+                todo.extend(c.subclasses)
+            scope = [m for c in fam for fs in c.all_methods.values() for m in fs]
+    attrs = set()
+    for g in scope:
+        gdefs = defs if g is f else None
+        for n in own_nodes(g.node):
+            it, tgt = None, None
+            if isinstance(n, ast.For):
+                it, tgt = n.iter, n.target
+            elif isinstance(n, ast.comprehension):
+                it, tgt = n.iter, n.target
+            if it is None or not isinstance(tgt, ast.Name):
+                continue
+            if gdefs is not None:
+                it = resolve_alias(it, gdefs)
+            if norm(it) != key:
+                continue
+            for x in own_nodes(g.node):
+                if isinstance(x, ast.Attribute) and isinstance(x.ctx, ast.Load) and isinstance(x.value, ast.Name) and x.value.id == tgt.id:
+                    attrs.add(x.attr)
+    if not attrs:
+        return [], attrs
+    cands = []
+    mods = {f.module}
+    for c in prog.classes.values():
+        if c.module in mods or getattr(c.module, "name", None) in mods:
+            have = set()
+            for k in (c.mro or [c]):
+                have |= _self_attrs_of_class(k)
+            if attrs <= have:
+                cands.append(c)
+    return cands, attrs
+
+
+def set_order_sites(ctx, f: FuncInfo):
+    """[(node, source expression, classes, attrs)] — conversions of a set of identity-hashed repo objects into an ordered sequence."""
+    from .extra import local_defs
+    defs = local_defs(f)
+    out = []
+    for n in own_nodes(f.node):
+        setexpr = None
+        if isinstance(n, ast.Call) and n.args and (norm(n.func) in _SEQ_MAKERS):
+            setexpr = n.args[0]
+        elif isinstance(n, ast.For):
+            setexpr = n.iter
+        elif isinstance(n, ast.comprehension):
+            comp = getattr(n, "_parent", None)
+            if isinstance(comp, ast.SetComp):
+                continue
+            par = getattr(comp, "_parent", None)
+            if isinstance(par, ast.Call) and norm(par.func) in _ORDER_FREE_CONSUMERS and par.args and par.args[0] is comp:
+                continue
+            setexpr = n.iter
+        elif isinstance(n, ast.Starred):
+            setexpr = n.value
+        elif isinstance(n, ast.Call) and isinstance(n.func, ast.Attribute) and n.func.attr == "pop" and not n.args:
+            setexpr = n.func.value
+        if setexpr is None:
+            continue
+        src = _set_source(setexpr, defs)
+        if src is None:
+            continue
+        par = getattr(n, "_parent", None)
+        if isinstance(n, ast.Call) and isinstance(par, ast.Call) and norm(par.func) in _ORDER_FREE_CONSUMERS and par.args and par.args[0] is n:
+            continue
+        classes, attrs = _element_classes(ctx, f, src, defs)
+        if not classes:
+            continue
+        kinds = [_identity_hashed(c) for c in classes]
+        if all(k is True for k in kinds):
+            out.append((n, src, classes, attrs))
+    return out
+
+
+_SET_ORDER_SELFTEST = '''
+class _N(object):
+    def __init__(self, onset):
+        self.onset = onset
+
+class _B(object):
+    def __init__(self, notes):
+        self.notes = notes
+    def setup(self):
+        self.notes = list(set(self.notes))
+        return [n.onset for n in self.notes]
+'''
+
+
+def rule_set_order(ctx, entry_qnames: List[str]):
+    rule = "SET-ORDER"
+    ctx.rule(rule, "repeatability: no function reachable from a read-only entry point turns a set of objects hashed by identity "
+                   "(instances of a class of the package without __hash__/__eq__) into an ordered sequence (list/tuple/array/iteration) "
+                   "— the order of such a set follows the objects' addresses, which differ from one call to the next; consumers that "
+                   "do not depend on order (sorted, min, max, len, any, all, set) are exempt")
+    w = world(ctx)
+    reach = w.cg.reachable(entry_qnames, weak=False)
+    scanned, sets = 0, 0
+    for q, path in reach.items():
+        f = ctx.prog.functions.get(q)
+        if f is None:
+            continue
+        scanned += 1
+        from .extra import local_defs
+        defs = local_defs(f)
+        for n in own_nodes(f.node):
+            if isinstance(n, (ast.Call, ast.SetComp)) and _set_source(n, defs) is not None:
+                sets += 1
+        for n, src, classes, attrs in set_order_sites(ctx, f):
+            ctx.touch(f)
+            ctx.check(False, rule, f"{q}:{norm(src)[:40]}", func=f, node=n, construct=f"set-order:{norm(src)[:40]}",
+                      msg=f"{_short(q)} materialises the iteration order of set({norm(src)}) — its elements are used as "
+                          f"{'/'.join(sorted(c.name for c in classes))} objects (attributes {sorted(attrs)}), hashed by address: the order, and "
+                          f"whatever is derived from it, changes between two calls on the same argument",
+                      path=[_short(p) for p in path])
+    # the rule's expected count is zero: a positive example must match on every run
+    from ..core.program import Program
+    try:
+        import os
+        rel = os.path.join("partitura", "utils", "generic.py")
+        with open(os.path.join(ctx.prog.repo, rel), encoding="utf-8") as fh:
+            base = ctx.prog.overrides.get(rel) or fh.read()
+        probe = Program(repo=ctx.prog.repo, overrides={rel: base + "\n" + _SET_ORDER_SELFTEST})
+        pf = probe.functions.get("partitura.utils.generic:_B.setup")
+        class _C:  # minimal context for the helper
+            prog = probe
+        hits = set_order_sites(_C, pf) if pf is not None else []
+    except Exception as e:  # pragma: no cover
+        raise AnalysisError(rule, "self-test", f"probe failed: {e!r}")
+    ctx.require(len(hits) == 1, rule, "self-test", f"the positive example must be reported exactly once (got {len(hits)})")
+    ctx.ok(rule, f"{scanned} functions reachable from {len(entry_qnames)} read-only entry points scanned, {sets} set constructions "
+                 f"classified, positive example reported")
